@@ -37,13 +37,15 @@ CHECKS = {
             "One symbolic transition of CallTracer.__call__ from an arbitrary invariant-satisfying tracer state covers call histories of any "
             "length by induction; the last executed opcode is an unconstrained integer, so every opcode (not only those the tests happen to "
             "produce) is classified; the post-state and the log are compared with a reference transition. Function attribution is checked on "
-            "frames recorded from the running interpreter.",
+            "frames recorded from the running interpreter; the whole recorded workload (real code objects, real f_lasti) is replayed through "
+            "the real tracer for every single-code filter; a new frame allocated at a dead frame's address must be traced as a new call.",
             TRUST + "The model of which events CPython delivers is an environment contract, validated natively on every run (exit 2 if it "
             "disagrees). Async generators, throw()/close() on suspended generators, C frames and threads are outside the claim.", "DESIGN.md#C02"),
     "C18": (True, "model_checking",
             "symbolic execution of CallTracer under a scripted random stub: rate and every draw are solver integers; event scripts exhausted",
             "The sampling rate (None, 0, 1, every N >= 2) and each random draw are solver variables; for every event script of a generator-like "
-            "frame within the bound the logged traces are exactly those of the calls sampled at their first call event, undistorted, with no residue.",
+            "frame within the bound the logged traces are exactly those of the calls sampled at their first call event, undistorted, with no residue; "
+            "a new call on a frame allocated at an abandoned generator frame's address takes its own draw.",
             TRUST + "random.randrange is a stub constrained only by its contract; uniformity is trusted for the statistical reading.", "DESIGN.md#C18"),
     "C03": (True, "fault_enumeration",
             "symbolic fault schedules (one solver bool per fault site) and tripwire-object selectors with k symbolic through the real CallTracer.__call__, get_type, get_func and trace_calls (CrossHair+z3); CPython's isinstance modelled by a contract validated natively every run",
@@ -62,14 +64,17 @@ CHECKS = {
             "symbolic execution (CrossHair+z3): filter verdict symbolic bool, func.__module__ symbolic str, default_code_filter on tape-composed paths vs an independent path predicate",
             "Claimed in part. The custom-filter gate and the __main__ exclusion are decided for every verdict / every module-name string "
             "(the solver finds e.g. '__main__\\x00' against a prefix test); the default filter is compared with an independent string-based "
-            "predicate on all file names composed from library roots, textual siblings, components and allow-lists within the bound.",
-            TRUST + "Symlinked roots, lru_cache staleness and enumeration of all installed code objects are outside the claim.", "DESIGN.md#C17"),
+            "predicate on all file names composed from library roots, textual siblings, a directory link to a root, a user file that is a link "
+            "into the standard library, components and allow-lists (incl. the working directory's own name) within the bound; code objects "
+            "that die and are re-allocated at the same address keep independent verdicts.",
+            TRUST + "lru_cache staleness of the default filter and enumeration of all installed code objects are outside the claim.", "DESIGN.md#C17"),
     "C07": (True, "model_checking",
             "symbolic execution of every shipped rewriter on tape-decoded types (CrossHair+z3), max_union_len symbolic; admits/trigger oracles",
             "Every shipped rewriter, the default chain and all ordered pairs are executed symbolically on unions over arbitrary member subsets "
             "(at several container positions), on a recursive type grammar and on types inferred from values; max_union_len is an "
             "unconstrained solver integer. Asserted: no exception, the result admits everything the input admitted (witness values stay "
-            "members), and without the documented trigger the type is unchanged.",
+            "members), and without the documented trigger the type is unchanged. A second member alphabet (Dict/DefaultDict, tuples of "
+            "three lengths, empty containers of several kinds, members containing unions) is explored in both member orders.",
             TRUST + "The structural 'admits' relation and the trigger predicates are part of the trusted oracle.", "DESIGN.md#C07"),
     "C08": (True, "model_checking",
             "symbolic execution of encode/decode on tape-decoded types, inferred types (k symbolic) and call traces (CrossHair+z3); struct_eq and byte-identical-JSON oracles",
@@ -90,7 +95,8 @@ CHECKS = {
             "Signatures valid by construction are rendered with a symbolic line width (every width, both wrapping branches) and parsed back: "
             "names, kinds, order, separators and default presence must equal the signature. Every non-empty subset of the fixture module's "
             "functions (all kinds, nested classes) is traced and the rendered module stub must parse and contain exactly those functions, in "
-            "their classes, with matching decorators/async and real signatures; the receiver is never annotated.",
+            "their classes, with matching decorators/async and real signatures; the receiver is never annotated. REAL functions of ten kinds "
+            "are also generated (exec) from the signature tape into a module that is regenerated under one name on every path.",
             TRUST + "Signature shapes are bounded per tier (per-kind counts).", "DESIGN.md#C12"),
     "C13": (True, "model_checking",
             "symbolic execution of get_updated_definition/update_signature_* over strategy x function x traced-subset x trace-shape decisions (CrossHair+z3); per-position table oracle",
@@ -102,11 +108,13 @@ CHECKS = {
             "symbolic execution of the whole run->store->stub pipeline on tape-decoded call histories, k symbolic (CrossHair+z3); stub text evaluated by an independent evaluator; membership oracle",
             "Per path the real tracer, logger, SQLite store, decoder, get_stub, rewriters and renderers run on a call history decoded from a symbolic "
             "tape, with k a solver integer; the emitted stub TEXT is evaluated with only the names it provides and every observed argument, return and "
-            "yield value must be a member of the annotation at its position. Bounded trees exhausted in the quick tier.",
-            TRUST + "Frames are the C02 environment model; SQLite is real (concrete rows per path).", "DESIGN.md#C01"),
+            "yield value must be a member of the annotation at its position. The same oracle is applied to the fixture workload as recorded "
+            "from the running interpreter (real code objects and bytecode offsets) for every rewriter x CLI flag x class of k. Bounded "
+            "trees exhausted in the quick tier.",
+            TRUST + "Frames are the C02 environment model or recorded real events; SQLite is real (concrete rows per path).", "DESIGN.md#C01"),
     "C10": (True, "model_checking",
             "symbolic execution of cli.print_stub_handler / cli.main over solver-chosen sequences of valid and stale rows (CrossHair+z3); differential oracle against the decodable subsequence",
-            "Every sequence (length 3 quick / 4 thorough) over 4 decodable and 14 stale row kinds, with and without -v, is pushed through the real "
+            "Every sequence (length 3 quick / 4 thorough) over 4 decodable and 19 stale row kinds, with and without -v, is pushed through the real "
             "CLI handler (and through cli.main with argv for shorter sequences): exit status 0, stdout identical to the run on the decodable rows "
             "alone, exactly the skipped count on stderr, 'No traces found' iff nothing decodes.",
             TRUST + "Finite selectors: the solver's role is branch feasibility; exhausting the tree equals complete enumeration of the bound.", "DESIGN.md#C10"),
@@ -114,7 +122,8 @@ CHECKS = {
             "symbolic execution of build_module_stubs_from_traces with solver-chosen row permutations and solver-chosen iteration orders of every set in monkeytype.stubs (CrossHair+z3)",
             "Hash-seed and memory-layout nondeterminism become solver variables: every set built inside monkeytype.stubs iterates in a "
             "solver-chosen order, rows are permuted/duplicated symbolically, and the resulting stub must equal the reference stub up to union "
-            "member order; includes the diamond case that exercises RewriteLargeUnion's ancestor choice.",
+            "member order; includes the diamond case that exercises RewriteLargeUnion's ancestor choice, functions with equal signatures, "
+            "and the SQLite store with a --limit equal to the number of calls and a duplicated row at any position.",
             TRUST + "Sets are assumed to be the only hash-ordered structure used by the pipeline; real PYTHONHASHSEED variation across processes is not run.", "DESIGN.md#C14"),
     "C09": (True, "model_checking",
             "SQL text of the real make_query/list_modules compiled to SMT (z3 strings + bounded relation, cvc5 cross-check in thorough) and compared with the specification; Python-level batch atomicity by symbolic execution against a model connection",
